@@ -26,8 +26,16 @@ def run(ctx):
     for r, d in (('L-CONF', 'Elf_Dyn layout equals glibc'), ('L-ENUM', 'tag table selection'), ('W-ITER', 'tag iteration structure'),
                  ('E-iv', 'string tag attribute names'), ('W-WIRE', 'string table / constructor wiring'),
                  ('W-SAME', 'section and segment views share the accessors'), ('E-i', 'symbol access formulas'),
-                 ('H-CUR', 'cursor discipline'), ('G-LIT', 'enum literals defined')):
+                 ('H-CUR', 'cursor discipline'), ('G-LIT', 'enum literals defined'),
+                 ('G-SIG', 'dynamic relocation tables located through their own tags'), ('G-TAB', 'address -> file offset mapping of table pointers')):
         ctx.rule(r, d)
+    # the relocation tables the dynamic view hands out (pointer/size/entsize tags, mapped *file offset* of the pointer): the
+    # rule is owned by C08 and shared here because get_relocation_tables is part of the dynamic view
+    from props import C08
+    ctx.guard('G-SIG', 'dynamic relocation tables', C08.check_dyn_tables, ctx, w)
+    ctx.floor('G-SIG', 8)
+    ctx.guard('G-TAB', 'table offsets', check_table_offset, ctx, w)
+    ctx.floor('G-TAB', 3)
     ctx.guard('L-CONF', 'Elf_Dyn', elfconf.check_glibc_struct, ctx, w, 'Elf_Dyn')
     ctx.floor('L-CONF', 8)
     ctx.guard('L-ENUM', 'd_tag', check_tag_tables, ctx, w, ctx.tier == 'thorough')
@@ -78,6 +86,36 @@ def check_tag_tables(ctx, w, thorough):
     em = env['ENUM_E_MACHINE']
     for k in extra:
         ctx.ob('L-ENUM', 'elf/enums.py:ENUMMAP_EXTRA_D_TAG_MACHINE', k, k in em, msg='extra-tag table keyed by an undefined machine name')
+
+
+def check_table_offset(ctx, w):
+    """get_table_offset(tag) -> (pointer value, file offset): the offset is the pointer mapped through address_offsets;
+    every consumer of a table position in this module takes element [1] (the file offset), never [0] (the address)."""
+    f = w.model.func(DYN, 'Dynamic.get_table_offset')
+    env = expr.FEnv(f.node, params=('tag_name',), inline=False)
+    rets = [r.value for r in expr.returns_of(f.node)]
+    ok = len(rets) == 1 and isinstance(rets[0], ast.Tuple) and len(rets[0].elts) == 2 and \
+        [expr.nfs(e, env) for e in rets[0].elts] == ['ptr', 'offset']
+    ctx.ob('G-TAB', f.construct, 'returns (pointer, file offset)', ok, got=[ast.unparse(r) for r in rets])
+    tr = expr.assign_trace(f.node, env)
+    ctx.ob('G-TAB', f.construct, 'file offset = first address_offsets(pointer) mapping', any('address_offsets' in v for op, v in tr.get('offset', [])), got=tr.get('offset'))
+    n = 0
+    for g in w.model.library_funcs():
+        if not g.mod.endswith('elf/dynamic.py'):
+            continue
+        for c in ast.walk(g.node):
+            if isinstance(c, ast.Subscript) and isinstance(c.value, ast.Call) and (dispatch.callee_name(c.value) or '').endswith('get_table_offset'):
+                n += 1
+                idx = c.slice.value if isinstance(c.slice, ast.Constant) else None
+                ctx.ob('G-TAB', g.construct, 'table position %s uses the file offset [1]' % ast.unparse(c.value)[:50], idx == 1, got=idx, line=c.lineno,
+                       msg='a table pointer tag holds a virtual address: reading the table at it (element [0]) instead of at the mapped file '
+                           'offset (element [1]) fails whenever the segment is not loaded at its file offset')
+            elif isinstance(c, ast.Assign) and isinstance(c.value, ast.Call) and (dispatch.callee_name(c.value) or '').endswith('get_table_offset'):
+                n += 1
+                t = c.targets[0]
+                ok = isinstance(t, ast.Tuple) and len(t.elts) == 2
+                ctx.ob('G-TAB', g.construct, 'table position unpacked as (pointer, offset)', ok, line=c.lineno)
+    ctx.ob('G-TAB', 'elf/dynamic.py', 'consumers of get_table_offset found', n >= 5, got=n)
 
 
 def check_iter(ctx, w):
